@@ -28,7 +28,7 @@ namespace zoo {
       bool flag() { return concrete ? (tick++ & 1) != 0 : vp_flag(); }
       World() {
          E[0] = &lx.true_value(); E[1] = lx.make_literal(lx.int_type(), u8"42"); E[2] = &lx.nullptr_value();
-         T[0] = &lx.int_type(); T[1] = &lx.get_pointer(lx.char_type()); T[2] = &lx.bool_type();
+         T[0] = &lx.int_type(); T[1] = &lx.get_pointer(lx.char_type()); T[2] = &lx.get_qualified(lx.const_qualifier() | lx.volatile_qualifier(), lx.bool_type());     // built-in, compound, cv-qualified
          I[0] = &lx.get_identifier(u8"foo"); I[1] = &lx.get_identifier(u8"bar");
          S[0] = &lx.get_string(u8"str0"); S[1] = &lx.get_string(u8"str1");
          N[0] = I[0]; N[1] = &lx.get_operator(u8"<=>");
@@ -36,12 +36,12 @@ namespace zoo {
       }
       // symbolic picks (two distinct candidates each, so that a swapped pair is visible)
       const ipr::Expr& e() { return *E[pick(2)]; }
-      const ipr::Type& t() { return *T[pick(2)]; }
+      const ipr::Type& t() { return *T[pick(3)]; }
       const ipr::Identifier& id() { return *I[pick(2)]; }
       const ipr::String& s() { return *S[pick(2)]; }
       const ipr::Name& n() { return *N[pick(2)]; }
-      // optional type: absent, T[0] or T[1]
-      Optional<ipr::Type> ot(const ipr::Type*& expected) { unsigned k = pick(3); expected = k ? T[k - 1] : nullptr; return k ? Optional<ipr::Type>{ *T[k - 1] } : Optional<ipr::Type>{ }; }
+      // optional type: absent, or one of the three pool types
+      Optional<ipr::Type> ot(const ipr::Type*& expected) { unsigned k = pick(4); expected = k ? T[k - 1] : nullptr; return k ? Optional<ipr::Type>{ *T[k - 1] } : Optional<ipr::Type>{ }; }
    };
 
    template<class X, class Y> inline bool same(const X& x, const Y& y) { return static_cast<const void*>(&x) == static_cast<const void*>(&y); }
@@ -254,15 +254,18 @@ namespace zoo {
       // ---- types
       ZCASE { const ipr::Type& e = w.t(); const ipr::Expr& b = w.e(); const ipr::Array& n = lx.get_array(e, b); v.template node<ipr::Array>(n); v.operands(same(n.element_type(), e) && same(n.bound(), b) && same(n.first(), e) && same(n.second(), b)); v.typed(n, &lx.typename_type()); return; }
       ZCASE { uint64_t q = w.nd(); vp_assume(q != 0); const ipr::Type& m = w.t(); const ipr::Qualified& n = lx.get_qualified(ipr::Qualifiers(q), m); v.template node<ipr::Qualified>(n);
-              v.operands(util::rep(n.qualifiers()) == q && same(n.main_variant(), m) && util::rep(n.first()) == q && same(n.second(), m)); v.typed(n, &lx.typename_type()); return; }
+              auto mq = util::view<ipr::Qualified>(m); uint64_t eq = mq ? (q | util::rep(mq->qualifiers())) : q; const ipr::Type& em = mq ? mq->main_variant() : m;      /* documented normal form: qualifiers merge over the innermost unqualified type */
+              v.operands(util::rep(n.qualifiers()) == eq && same(n.main_variant(), em) && util::rep(n.first()) == eq && same(n.second(), em)); v.typed(n, &lx.typename_type()); return; }
       ZCASE { v.generative(); const ipr::Expr& e = w.e(); const ipr::Decltype& n = lx.get_decltype(e); v.template node<ipr::Decltype>(n); v.operands(same(n.expr(), e) && same(n.operand(), e)); v.typed(n, &lx.typename_type()); return; }
       ZCASE { impl::Warehouse<ipr::Type> w1, w2; w1.push_back(w.t()); w2.push_back(w.t()); const ipr::Product& p = lx.get_product(w1); const ipr::Sum& s = lx.get_sum(w2); const ipr::Tor& n = lx.get_tor(p, s);
               v.template node<ipr::Tor>(n); v.operands(same(n.source(), p) && same(n.throws(), s) && same(n.first(), p) && same(n.second(), s)); v.typed(n, &lx.typename_type());
               v.template node<ipr::Product>(p); v.template node<ipr::Sum>(s); v.typed(p, &lx.typename_type()); v.typed(s, &lx.typename_type()); return; }
-      ZCASE { impl::Warehouse<ipr::Type> w1; w1.push_back(w.t()); const ipr::Product& p = lx.get_product(w1); const ipr::Type& t = w.t(); const ipr::Expr& th = w.e(); bool with_xfer = w.flag();
-              const ipr::Transfer& xf = lx.get_transfer(lx.c_linkage(), lx.get_calling_convention(u8"cc"));
-              const ipr::Function& n = with_xfer ? lx.get_function(p, t, th, xf) : lx.get_function(p, t, th); v.template node<ipr::Function>(n);
-              v.operands(same(n.source(), p) && same(n.target(), t) && same(n.throws(), th) && same(n.first(), p) && same(n.second(), t) && same(n.third(), th) && (with_xfer ? n.transfer() == xf : n.transfer() == lx.int_type().transfer()));
+      ZCASE { impl::Warehouse<ipr::Type> w1; w1.push_back(w.t()); const ipr::Product& p = lx.get_product(w1); const ipr::Type& t = w.t(); const ipr::Expr& th = w.e(); unsigned how = w.pick(4);
+              const ipr::Transfer& foreign = lx.get_transfer(lx.c_linkage(), lx.get_calling_convention(u8"cc")); const ipr::Transfer& natural = lx.get_transfer(lx.cxx_linkage(), lx.get_calling_convention(u8""));
+              // how: 0 transfer omitted, 1 natural transfer spelled out (must collapse, keeping every operand), 2 foreign transfer, 3 linkage-only transfer
+              const ipr::Transfer& xf = how == 3 ? lx.get_transfer_from_linkage(lx.c_linkage()) : how == 2 ? foreign : natural;
+              const ipr::Function& n = how == 0 ? lx.get_function(p, t, th) : lx.get_function(p, t, th, xf); v.template node<ipr::Function>(n);
+              v.operands(same(n.source(), p) && same(n.target(), t) && same(n.throws(), th) && same(n.first(), p) && same(n.second(), t) && same(n.third(), th) && (how >= 2 ? n.transfer() == xf : n.transfer() == lx.int_type().transfer()));
               v.typed(n, &lx.typename_type()); return; }
       ZCASE { const ipr::Type& t = w.t(); const ipr::Pointer& n = lx.get_pointer(t); v.template node<ipr::Pointer>(n); v.operands(same(n.points_to(), t) && same(n.operand(), t)); v.typed(n, &lx.typename_type()); return; }
       ZCASE { const ipr::Type& t = w.t(); const ipr::Reference& n = lx.get_reference(t); v.template node<ipr::Reference>(n); v.operands(same(n.refers_to(), t) && same(n.operand(), t)); v.typed(n, &lx.typename_type()); return; }
@@ -271,9 +274,9 @@ namespace zoo {
       ZCASE { impl::Warehouse<ipr::Type> w1; w1.push_back(w.t()); const ipr::Product& p = lx.get_product(w1); const ipr::Type& t = w.t(); const ipr::Forall& n = lx.get_forall(p, t); v.template node<ipr::Forall>(n);
               v.operands(same(n.source(), p) && same(n.target(), t) && same(n.first(), p) && same(n.second(), t)); v.typed(n, &lx.typename_type()); return; }
       ZCASE { v.generative(); const ipr::Auto& n = lx.get_auto(); v.template node<ipr::Auto>(n); v.operands(!same(n, lx.get_auto())); v.typed(n, &lx.typename_type()); return; }
-      ZCASE { const ipr::Expr& e = w.e(); bool with_xfer = w.flag(); const ipr::Transfer& xf = lx.get_transfer(lx.c_linkage(), lx.get_calling_convention(u8"cc"));
-              const ipr::As_type& n = with_xfer ? lx.get_as_type(e, xf) : lx.get_as_type(e); v.template node<ipr::As_type>(n);
-              v.operands(same(n.expr(), e) && same(n.operand(), e) && (with_xfer ? n.transfer() == xf : n.transfer() == lx.int_type().transfer())); v.typed(n, &lx.typename_type()); return; }
+      ZCASE { const ipr::Expr& e = w.e(); unsigned how = w.pick(3); const ipr::Transfer& foreign = lx.get_transfer(lx.c_linkage(), lx.get_calling_convention(u8"cc")); const ipr::Transfer& natural = lx.get_transfer(lx.cxx_linkage(), lx.get_calling_convention(u8""));
+              const ipr::As_type& n = how == 0 ? lx.get_as_type(e) : lx.get_as_type(e, how == 2 ? foreign : natural); v.template node<ipr::As_type>(n);
+              v.operands(same(n.expr(), e) && same(n.operand(), e) && (how == 2 ? n.transfer() == foreign : n.transfer() == lx.int_type().transfer())); v.typed(n, &lx.typename_type()); return; }
       ZCASE { const ipr::Identifier& i = w.id(); const ipr::As_type& n = lx.get_as_type(i); v.template node<ipr::As_type>(n); v.operands(same(n.name(), i) && same(n.expr(), n)); v.typed(n, &lx.typename_type()); return; }
       ZCASE { v.generative(); uint64_t kd = w.nd() & 0xff; impl::Enum* e = lx.make_enum(*w.reg, ipr::Enum::Kind(kd)); const ipr::Enum& n = *e; v.template node<ipr::Enum>(n);
               bool ok = (uint64_t)n.kind() == kd && same(n.region().enclosing(), *w.reg) && !n.base().is_valid() && n.members().size() == 0 && vp_outcome([&] { n.name(); }) == 1;
@@ -313,6 +316,19 @@ namespace zoo {
       ZCASE { v.generative(); uint64_t lvl = w.nd(); impl::Mapping* m = lx.make_mapping(*w.reg, Mapping_level{ lvl }); const ipr::Name& nm = w.n(); const ipr::Type& ty = w.t(); impl::Parameter* p = m->param(nm, ty); const ipr::Parameter& n = *p;
               v.template node<ipr::Parameter>(n); bool ok = same(n.name(), nm) && same(n.type(), ty) && util::rep(n.level()) == lvl && util::rep(n.position()) == 0 && !n.default_value().is_valid();
               const ipr::Expr& dv = w.e(); p->init = &dv; v.operands(ok && same(n.default_value().get(), dv)); v.typed(n, &ty); return; }
+      ZCASE { v.generative(); uint64_t q = w.nd(); const ipr::Expr& a = w.e(); const ipr::Type& ty = w.t(); const ipr::Qualification& n = *lx.make_qualification(a, ipr::Qualifiers(q), ty); v.template node<ipr::Qualification>(n);
+              v.operands(same(n.expr(), a) && same(n.first(), a) && util::rep(n.qualifiers()) == q && util::rep(n.second()) == q); v.typed(n, &ty); return; }
+      ZCASE { v.generative(); const ipr::Name& nm = w.n(); const ipr::Type& ty = w.t(); impl::Alias* d = w.reg->declare_alias(nm, ty); const ipr::Alias& n = *d; v.template node<ipr::Alias>(n);
+              v.operands(same(n.name(), nm) && n.initializer().is_valid() && same(n.initializer().get(), ty)); v.typed(n, &lx.typename_type()); return; }          // an alias for a type has the type of its initializer
+      ZCASE { v.generative(); impl::Warehouse<ipr::Type> w1; w1.push_back(lx.typename_type()); auto& fa = lx.get_forall(lx.get_product(w1), w.t()); const ipr::Name& nm = w.n(); bool primary = w.flag();
+              impl::Template* t = primary ? w.reg->declare_primary_template(nm, fa) : w.reg->declare_secondary_template(nm, fa); const ipr::Template& n = *t; v.template node<ipr::Template>(n);
+              bool ok = same(n.name(), nm) && same(n.type(), fa) && vp_outcome([&] { n.mapping(); }) == 1 && n.specializations().size() == 0 && (!primary || same(n.primary_template(), n));
+              impl::Mapping* m = lx.make_mapping(*w.reg, Mapping_level{ 1 }); m->param(w.n(), lx.typename_type()); const ipr::Expr& body = w.e(); m->body = &body; t->init = m;
+              v.operands(ok && same(n.mapping(), *m) && same(n.parameters(), m->parameters()) && same(n.result(), body) && n.initializer().is_valid() && same(n.initializer().get(), body)); v.typed(n, &fa); return; }
+      ZCASE { const ipr::String& s = w.s(); const ipr::Linkage& k = w.flag() ? lx.get_linkage(s) : lx.get_linkage(s.characters()); const ipr::Calling_convention& cc = lx.get_calling_convention(w.s().characters());
+              const ipr::Transfer& t = lx.get_transfer(k, cc); const ipr::Transfer& tl = lx.get_transfer_from_linkage(k); const ipr::Transfer& tc = lx.get_transfer_from_convention(cc);
+              v.template node<ipr::Transfer>(t); v.template node<ipr::Transfer>(tl); v.template node<ipr::Transfer>(tc);
+              v.operands(same(k.language().what(), s) && t.linkage() == k && t.convention() == cc && tl.linkage() == k && tl.convention() == lx.int_type().transfer().convention() && tc.convention() == cc && tc.linkage() == lx.cxx_linkage()); return; }
       // ---- tokens, attributes, captures
       ZCASE { const ipr::String& s = w.s(); ipr::Source_location loc; uint64_t a = w.nd(), b = w.nd(); loc.line = ipr::Line_number(uint32_t(a)); loc.column = ipr::Column_number(uint32_t(a >> 32)); loc.file = ipr::File_index(uint32_t(b));
               const impl::Token& tk = *w.own(new impl::Token(s, loc, ipr::TokenValue(uint16_t(b >> 32)), ipr::TokenCategory(uint8_t(b >> 48)))); /* Lexicon::make_token is declared but not defined by the library */ const ipr::Token& n = tk; v.template node<ipr::Token>(n); v.template node<ipr::Lexeme>(n.lexeme());
